@@ -351,6 +351,26 @@ with norm_items (l : items) : items :=
 
 Definition rt (m : msg) : msg := norm_msg (strip_msg m).
 
+(* content: the Message with the representation state forgotten (every field an array of its items).
+   Two Messages have the same content iff they have the same what-code, the same fields in the same order
+   with the same names and type codes, the same item counts and identical items, at every nesting level. *)
+Fixpoint content_msg (m : msg) : msg :=
+  match m with Msg w fs => Msg w (content_fields fs) end
+with content_fields (fs : fields) : fields :=
+  match fs with
+  | FNil => FNil
+  | FCons n tc r t => FCons n tc (content_repr r) (content_fields t)
+  end
+with content_repr (r : repr) : repr :=
+  match r with
+  | RInline i => RArray (ICons (content_item i) INil)
+  | RArray l => RArray (content_items l)
+  end
+with content_item (i : item) : item :=
+  match i with IMsg m => IMsg (content_msg m) | _ => i end
+with content_items (l : items) : items :=
+  match l with INil => INil | ICons i t => ICons (content_item i) (content_items t) end.
+
 (* ================================================================== checksum *)
 
 Definition nth_bytes (k n : N) (bs : bytes) : bytes := takeN n (dropN k bs).
